@@ -2,6 +2,10 @@
 simplest numpy form).  Parsed by the checker, never executed.  ``axis`` is the
 selection axis: 1 = features (columns), 0 = samples (rows)."""
 import numpy as np
+import scipy
+from scipy.linalg import eigh
+from scipy.sparse.linalg import eigsh
+from skmatter.utils import pcovr_covariance, pcovr_kernel
 
 
 # ---- farthest point sampling ------------------------------------------------
@@ -33,3 +37,160 @@ def pcov_fps_update(M, norms, hausdorff, hausdorff_at_select, last, axis):
     else:
         d = norms + norms[last] - 2 * M[last]
     return hausdorff_at_select, np.minimum(hausdorff, d)
+
+
+# ---- GreedySelector bookkeeping -----------------------------------------------
+def resolve_n_to_select(n_to_select, n_candidates, kind):
+    # None -> half of the candidates, int -> as is, float -> fraction
+    if kind == "none":
+        return n_candidates // 2
+    elif kind == "int":
+        return n_to_select
+    else:
+        return int(n_candidates * n_to_select)
+
+
+def init_buffers(X, y, n, axis, with_y):
+    # zero result buffers with the selection axis of extent n
+    if axis == 1:
+        X_selected = np.zeros((X.shape[0], n), float)
+    else:
+        X_selected = np.zeros((n, X.shape[1]), float)
+    selected_idx = np.zeros(n, int)
+    if with_y:
+        y_selected = np.zeros((n, y.shape[1]), float)
+        return X_selected, selected_idx, y_selected
+    return X_selected, selected_idx
+
+
+def record_selection(X, y, X_selected, y_selected, selected_idx, n_selected, last, axis, with_y):
+    # slot n_selected of every result buffer receives the data of `last`;
+    # the counter is advanced afterwards
+    if axis == 1:
+        X_selected[:, n_selected] = X[:, last]
+    else:
+        X_selected[n_selected] = X[last]
+        if with_y:
+            y_selected[n_selected] = y[last]
+    selected_idx[n_selected] = last
+    return X_selected, y_selected, selected_idx, n_selected + 1
+
+
+def continue_buffers(X_selected, y_selected, selected_idx, n_selected, n, axis, with_y):
+    # warm start: extend every buffer to extent n on the selection axis, keeping the prefix
+    if axis == 1:
+        X_selected = np.pad(X_selected, [(0, 0), (0, n - n_selected)])
+    else:
+        X_selected = np.pad(X_selected, [(0, n - n_selected), (0, 0)])
+    if with_y:
+        if axis == 1:
+            y_selected = np.pad(y_selected, [(0, 0), (0, n - n_selected)])
+        else:
+            y_selected = np.pad(y_selected, [(0, n - n_selected), (0, 0)])
+    new_idx = np.zeros(n, int)
+    new_idx[:n_selected] = selected_idx
+    return X_selected, y_selected, new_idx
+
+
+def best_new_selection(scores, selected_idx, n_selected, threshold, threshold_type, first_score):
+    # candidates already selected are excluded; the best remaining candidate is
+    # returned unless its (absolute / relative-to-first) score is below the threshold
+    scores = np.array(scores, dtype=float)
+    scores[selected_idx[:n_selected]] = -np.inf
+    best = np.argmax(scores)
+    if threshold is not None:
+        if first_score is None:
+            first_score = scores[best]
+        if threshold_type == "absolute":
+            if scores[best] < threshold:
+                return None
+        if threshold_type == "relative":
+            if scores[best] / first_score < threshold:
+                return None
+    return best
+
+
+def support_mask(X, selected_idx, axis):
+    mask = np.full(X.shape[axis], False)
+    mask[selected_idx] = True
+    return mask
+
+
+# ---- CUR / PCov-CUR ----------------------------------------------------------------
+def cur_pi(X, k, axis, random_state):
+    # leverage score: sum over the top-k singular vectors of the squared entries;
+    # left vectors score samples (rows), right vectors score features (columns)
+    if axis == 0:
+        U, _, _ = scipy.sparse.linalg.svds(X, k=k, return_singular_vectors="u", random_state=random_state)
+        return (U[:, :k] ** 2.0).sum(axis=1)
+    else:
+        _, _, Vt = scipy.sparse.linalg.svds(X, k=k, return_singular_vectors="vh", random_state=random_state)
+        return (Vt**2.0).sum(axis=0)
+
+
+def pcov_cur_pi(X, y, mixing, k, axis, small):
+    # top-k eigenvectors (descending eigenvalue) of the PCovR-modified Gram matrix
+    # (samples) / covariance (features) of the residuals
+    if axis == 0:
+        M = pcovr_kernel(mixing, X, y)
+    else:
+        M = pcovr_covariance(mixing, X, y, rcond=1e-12, rank=None)
+    if small:
+        v, U = eigsh(M, k=k, tol=1e-12)
+    else:
+        v, U = eigh(M)
+    U = U[:, np.flip(np.argsort(v))]
+    return (U[:, :k] ** 2.0).sum(axis=1)
+
+
+def project_out_column(x, j):
+    # x - c_hat c_hat^T x  with c_hat the normalised column j
+    c = x[:, [j]]
+    c = c / np.linalg.norm(c, axis=0)
+    return x - c @ (c.T @ x)
+
+
+def cur_orthogonalize(X_current, last, axis):
+    # the residual loses the span of the selected column (features) / row (samples)
+    if axis == 1:
+        return project_out_column(X_current, last)
+    else:
+        return project_out_column(X_current.T, last).T
+
+
+def y_feature_residual(y, X_selected, tol):
+    # y minus its least-squares fit on the selected columns
+    return y - X_selected @ np.linalg.pinv(X_selected.T @ X_selected, rcond=tol) @ X_selected.T @ y
+
+
+def y_sample_residual(y_all, X_all, y_selected, X_selected, n_selected, tol):
+    # y minus the prediction of the least-squares model fitted on the selected samples only
+    W = np.linalg.lstsq(X_selected[:n_selected], y_selected[:n_selected], rcond=tol)[0]
+    return y_all - X_all @ W
+
+
+def cur_step(X_current, y_current, pi, n_selected_after, last, recompute_every):
+    # after a selection was recorded: orthogonalise (unless recompute_every == 0),
+    # refresh the scores every `recompute_every` selections, exclude the pick
+    if recompute_every != 0:
+        X_current, y_current = orthogonalize(X_current, y_current, last)
+        if n_selected_after % recompute_every == 0:
+            pi = compute_pi(X_current, y_current)
+    pi[last] = 0.0
+    return X_current, y_current, pi
+
+
+def cur_warm(X_current, y_current, pi, recompute_every):
+    # warm start: scores are refreshed unless they are never refreshed
+    if recompute_every != 0:
+        pi = compute_pi(X_current, y_current)
+    return pi
+
+
+def compute_pi(X_current, y_current):
+    """uninterpreted in the cadence obligations (the checker substitutes the same
+    symbol for this function and for the class's _compute_pi)"""
+
+
+def orthogonalize(X_current, y_current, last):
+    """uninterpreted in the cadence obligations"""
